@@ -36,12 +36,17 @@ def build_blade(cfg, values=None):
     obs = []
     with ctx.shadow(extra_stubs=c13.stiff_stubs(ctx), policy=c13.BayPolicy()):
         bay, comps = c13.make_bay(ctx, dict(cfg, stiffeners=[('B1', {'base': False})]))
+        if cfg.get('unequal_skins'):
+            # the two skin panels that meet at the stiffener have different thicknesses: the skin surface the flange sits on is the
+            # one of the MEAN thickness (the stiffener's own definition, _rebuild), for the first and the second moment alike
+            t2 = ctx.V('skin_plyt_other_side')
+            bay.panels[1].plyts = [t2, t2]
         bay._rebuild()
         s = comps[0][1]
         size = bay.get_size()
         s.calc_kM(size=size, row0=0, col0=0, silent=True, finalize=True)
         K = s.kM.todict()
-        h = sum(bay.panels[0].plyts)
+        h = (sum(bay.panels[0].plyts) + sum(bay.panels[1].plyts)) / 2
         hb = Sym.lift(0)
         bf, hf, mu = s.bf, s.hf, s.mu
         e = -(bf / 2 + hb + h / 2)                 # centroid position (flange below the skin)
@@ -177,6 +182,7 @@ def configs(tier, seed):
     out.append({'model': 'bay', 'm': 2, 'n': 2, 'variant': 'blade1d', 'group': 'kM:bladestiff1d-flange'})
     out.append({'model': 'bay', 'm': 1, 'n': 5, 'variant': 'blade1d', 'group': 'kM:bladestiff1d-flange'})
     out.append({'model': 'bay', 'm': 4, 'n': 1, 'variant': 'blade1d', 'group': 'kM:bladestiff1d-flange'})
+    out.append({'model': 'bay', 'm': 2, 'n': 2, 'variant': 'blade1d', 'unequal_skins': True, 'group': 'kM:bladestiff1d-flange'})
     out[0]['canary'] = True
     out[-3]['canary'] = True
     return out
